@@ -30,6 +30,11 @@ impl VMap<TypeIdV, Vec<AnyBoxObj>> {
     { unimplemented!() }
     #[verifier::external_body]
     pub fn clear(&mut self) ensures final(self)@ == Map::<int, Seq<AnyVal>>::empty() { unimplemented!() }
+    // entry(k).or_insert(v) / or_insert_with(|| v): only a vacant entry is filled
+    #[verifier::external_body]
+    pub fn entry_or_insert(&mut self, k: TypeIdV, v: Vec<AnyBoxObj>)
+        ensures final(self)@ == (if old(self)@.dom().contains(k.id()) { old(self)@ } else { old(self)@.insert(k.id(), vals(&v)) })
+    { unimplemented!() }
     #[verifier::external_body]
     pub fn get(&self, k: &TypeIdV) -> (r: Option<&Vec<AnyBoxObj>>)
         ensures r is Some <==> self@.dom().contains(k.id()), r is Some ==> vals(r->0) == self@[k.id()]
@@ -41,6 +46,7 @@ impl AbortHandleV {
     pub uninterp spec fn timer(&self) -> int;
     #[verifier::external_body]
     pub fn abort(&self, Tracked(w): Tracked<&mut World>) ensures *final(w) == (World { aborted: old(w).aborted.insert(self.timer()), ..*old(w) }) { unimplemented!() }
+    #[verifier::external_body] pub fn is_aborted(&self) -> (r: bool) { unimplemented!() }
 }
 pub open spec fn timers(v: Seq<AbortHandleV>) -> Seq<int> { v.map_values(|h: AbortHandleV| h.timer()) }
 // `for x in v.drain(..)` (rule T3): take the elements front to back until the vector is empty
